@@ -22,6 +22,31 @@ Definition pending_gapfree (p : pool) : Prop :=
   forall a t n, In t (held (pending p) a) -> st_nonce (cur_state p) a <= n < t_nonce t ->
                 exists t', In t' (held (pending p) a) /\ t_nonce t' = n.
 
+(* Clause 3: every pooled transaction is valid against the head the pool
+   works on: nonce not below the account nonce, cost within the balance,
+   gas within the block gas limit. *)
+Definition pooled_valid (p : pool) : Prop :=
+  forall t, In t (all p) ->
+    st_nonce (cur_state p) (t_from t) <= t_nonce t /\
+    t_value t + t_price t * t_gas t <= st_balance (cur_state p) (t_from t) /\
+    t_gas t <= max_gas p.
+
+(* Clause 4: queued transactions lie strictly above the pending ones. *)
+Definition queued_above (p : pool) : Prop :=
+  forall a t t', In t (held (pending p) a) -> In t' (held (queue p) a) -> t_nonce t < t_nonce t'.
+
+(* Clause 5: the pool's next nonce (TxPool.Nonce) never runs ahead of the
+   pending run: every nonce between the account nonce and it is pending. *)
+Definition pool_nonce_sound (p : pool) : Prop :=
+  forall a m, st_nonce (cur_state p) a <= m < nc_get (pnonces p) a ->
+              exists t, In t (held (pending p) a) /\ t_nonce t = m.
+
+(* Clause 6: Pending() hands out, per account, exactly the stored pending
+   transactions in nonce order (the Flatten cache never goes stale). *)
+Definition pending_api_exact (p : pool) : Prop :=
+  (forall a flat, In (a, flat) (fst (pending_view p)) -> flat = sort_nonce (held (pending p) a)) /\
+  (forall a, held (pending p) a <> [] -> exists flat, In (a, flat) (fst (pending_view p))).
+
 (* the history used as witness of the listed finding and in the non-vacuity
    examples: head A mined nonces 3,4 of account 0; the pool takes 5,6,7 (and
    two transactions of account 1, one of them gapped); then the chain switches
